@@ -45,12 +45,12 @@ REQUIRED_MONITORS = ['fetch_vs_model', 'read_containment', 'index_vs_model', 'se
 MIN_NONTRIVIAL = {'quick': 15000, 'thorough': 1000000}
 TIMEOUT_S = {'quick': 300, 'thorough': 3000}
 NSHARDS = 16
-N_FILES = {'quick': 320, 'thorough': 16000}           # random-history files, all shards together
+N_FILES = {'quick': 320, 'thorough': 10000}           # random-history files, all shards together
 SCOPE = {
     # L_cuts: every cut into <= 4 segments of every payload length 1..L_cuts, every pair;  L_max / cuts_per_len: every pair on
     # `cuts_per_len` random cuts (1..4 segments, random layout) for every payload length 1..L_max
     'quick': {'L_cuts': 8, 'L_max': 40, 'cuts_per_len': 2},
-    'thorough': {'L_cuts': 17, 'L_max': 80, 'cuts_per_len': 24},
+    'thorough': {'L_cuts': 17, 'L_max': 80, 'cuts_per_len': 16},
 }
 MAX_PER_KIND = 20
 
